@@ -47,6 +47,9 @@ def run(chk):
 
     from lib import movn32
     movn32.run(chk)
+    from lib import ldstsiblings, a64vec as _a64vec
+    ldstsiblings.run(chk)
+    _a64vec.run_scalar_bit(chk, A)
     return chk.finish(
         level="other",
         explanation=("Static rules over a64::Assembler::_emit and the AArch64 tables of /repo's current source: "
